@@ -188,3 +188,35 @@ impl Invariant for Vec<VecDeque<NodeRef>> {
         }
     }
 }
+
+#[cfg(cormacrelf_incremental_rs_verif)]
+impl AdjustHeightsHeap {
+    /// Verification hook: the heap must be empty and consistent outside of adjust_heights.
+    pub(crate) fn verif_audit(&self, out: &mut Vec<String>) {
+        let queued = calculate_len(&self.queues);
+        if self.length != 0 || queued != 0 {
+            out.push(format!(
+                "adjust-heights heap not empty at a quiescent point: length={} queued={queued}",
+                self.length
+            ));
+        }
+        if self.max_height_seen > self.max_height_allowed() {
+            out.push(format!(
+                "adjust-heights heap: max_height_seen {} > max_height_allowed {}",
+                self.max_height_seen,
+                self.max_height_allowed()
+            ));
+        }
+        for (height, q) in self.queues.iter().enumerate() {
+            for node in q.iter() {
+                if node.height_in_adjust_heights_heap().get() != height as i32 {
+                    out.push(format!(
+                        "adjust-heights heap: node {:?} in bucket {height} has marker {}",
+                        node.id(),
+                        node.height_in_adjust_heights_heap().get()
+                    ));
+                }
+            }
+        }
+    }
+}
